@@ -3,7 +3,8 @@
    arbitrary world (so it applies at every deploy step of every history, with any filter/profile:
    [roots]/[D] are the render result for the selected targets); hypotheses wfD/wfM as in C05. *)
 From AP Require Import Base.Str Gen.Tables Model.Deploy Model.Crash Proofs.DeployP Proofs.ConvergeP Proofs.LedgerP Proofs.RollbackP Proofs.HistoryP
-  Proofs.CrashP Proofs.RerunP Proofs.RerunCrashP.
+  Proofs.CrashP Proofs.RerunP Proofs.RerunCrashP Proofs.ConsequencesP.
+From AP Require Model.Render Proofs.RootsIndepP.
 Open Scope N_scope.
 
 (* every desired file — written by this deploy or found byte-identical — is listed by the manifest
@@ -94,6 +95,38 @@ Theorem C15_records_follow_writes : forall w roots D flt k r,
 Proof. intros w roots D flt k r HD HM Hr pl st. exact (records_follow_writes w roots D flt HD HM k r Hr). Qed.
 Print Assumptions C15_records_follow_writes.
 
+(* "Consequently a later change of its source is planned as a managed update rather than demanded as an adopt,
+   its removal from the configuration is planned as a delete": for EVERY disk, desired state and managed set —
+   in particular M = managed_for_plan w roots flt — a recorded (target, path) ... *)
+Theorem C15_recorded_consequences : forall f D M tp,
+  In tp M ->
+  (forall d o, In d D -> dkey d = tp -> f (dpath d) = Some o -> o <> FBytes (dcontent d) ->
+     In (Build_change (dtarget d) (PUpdate UManaged) (dpath d) (Some o) (Some (dcontent d))) (plan f D M)) /\
+  (forall o, mem_key tp D = false -> f (snd tp) = Some o ->
+     In (Build_change (fst tp) PDelete (snd tp) (Some o) None) (plan f D M)).
+Proof. exact recorded_consequences. Qed.
+Print Assumptions C15_recorded_consequences.
+
+Theorem C15_recorded_never_adopt : forall f D M c,
+  In c (plan f D M) -> In (c_target c, c_path c) M -> c_op c <> PUpdate UAdopt.
+Proof. exact recorded_never_adopt. Qed.
+Print Assumptions C15_recorded_never_adopt.
+
+(* ... and a record is only consulted when its root is among the roots of the run (C02_managed_from_records).  The
+   roots are a function of the environment and the selected target sections alone (render side, Model/Render.v):
+   removing, disabling or de-selecting modules never takes a root — and with it its manifest — out of sight. *)
+Theorem C15_roots_do_not_depend_on_modules : forall c c' e prof prof' filt D R D' R',
+  Render.selected_targets c filt = Render.selected_targets c' filt ->
+  Render.render c e prof filt = Render.Ok (D, R) -> Render.render c' e prof' filt = Render.Ok (D', R') -> R = R'.
+Proof. exact RootsIndepP.render_roots_same_targets. Qed.
+Print Assumptions C15_roots_do_not_depend_on_modules.
+
+Theorem C15_roots_of_targets : forall c e prof filt D R,
+  Render.render c e prof filt = Render.Ok (D, R) ->
+  exists ts, Render.selected_targets c filt = Render.Ok ts /\ R = Render.dedup_roots (Render.all_roots e [] ts).
+Proof. exact RootsIndepP.render_roots_of_targets. Qed.
+Print Assumptions C15_roots_of_targets.
+
 Example C15_continuity_refuted :
   let r := Build_root (s "codex") [s "h"; s "skills"] true in
   let ps := [s "h"; s "skills"; s "mine"; s "SKILL.md"] in
@@ -116,5 +149,6 @@ Example C15_nonvacuous :
   let w1 := snd (snd (deploy_cmd SJsonYes true false None w0 [r1; r2] [Build_dfile (s "codex") pb 1 []])) in
   let w2 := snd (snd (deploy_cmd SJsonYes true false None w1 [r1; r2] [Build_dfile (s "codex") pb 2 []])) in
   root_managed (files w1) r2 = [(s "codex", pb)] /\ root_managed (files w2) r2 = [(s "codex", pb)] /\
-  map c_op (fst (deploy_cmd SJsonYes true false None w1 [r1; r2] [Build_dfile (s "codex") pb 2 []])) = [PUpdate UManaged].
+  map c_op (fst (deploy_cmd SJsonYes true false None w1 [r1; r2] [Build_dfile (s "codex") pb 2 []])) = [PUpdate UManaged] /\
+  map c_op (fst (deploy_cmd SJsonYes true false None w1 [r1; r2] [])) = [PDelete].
 Proof. vm_compute. repeat split; reflexivity. Qed.
